@@ -34,7 +34,7 @@ ASSUMPTIONS = ["data compared exactly as float32(saved data)", "frames have >= 3
                ".h5 files are checked through blimpy + h5py only (no independent HDF5 reader)"]
 PROBES = ["derived_of_loaded_frame_saved", "derived_after_get_waterfall_saved", "loaded_resaved", "copy_saved", "pickled_saved",
           "format_fil", "format_h5", "descending", "ascending", "clock_jump", "refsigproc_input", "helpers_checked", "sliced_saved",
-          "dedrifted_saved", "sibling_frames_alive", "retimed_after_history"]
+          "dedrifted_saved", "sibling_frames_alive", "retimed_after_history", "data_rebound_after_waterfall"]
 
 
 def generate(rng, tier):
@@ -62,8 +62,11 @@ def generate(rng, tier):
             ops.append({"op": "inject", "fr": fr, "sig": F.gen_signal(rng, g, allow_box=True)})
         elif r < 0.72:
             ops.append({"op": "noise", "fr": fr})
-        elif r < 0.76:
+        elif r < 0.74:
             ops.append({"op": "clock_jump", "delta": rng.choice([3600.0, -7200.0, 86400.0 * 30])})
+        elif r < 0.78:
+            # the frame's data array is *replaced* (not edited in place): re-use for another realisation, load_npy, assignment
+            ops.append({"op": "rebind", "fr": fr, "how": rng.choice(["zero_refill", "load_npy", "assign"]), "seed": rng.randrange(1 << 30)})
         elif r < 0.80:
             # the frame's start time is re-assigned, by the library's own Cadence(t_overwrite=True) or by the user
             ops.append({"op": "retime", "fr": fr, "via": rng.choice(["cadence", "assign"]), "slew": rng.choice([0.0, 150.0, 3600.0])})
@@ -290,6 +293,21 @@ def execute(sc, ctx):
             elif kind == "noise":
                 fr.add_noise(5, 1, noise_type="gaussian")
                 h.append("noise")
+            elif kind == "rebind":
+                rr = F._REAL_DEFAULT_RNG([op["seed"], 21])
+                new = rr.normal(20.0, 2.0, size=fr.data.shape) + np.arange(fr.data.shape[1])[None, :] * 0.21
+                if op["how"] == "zero_refill":
+                    fr.zero_data()
+                    fr.add_noise(7, 1, noise_type="gaussian")
+                    fr.data[:, fr.data.shape[1] // 4] += 30.0
+                elif op["how"] == "load_npy":
+                    pnpy = ctx.seams.path("d%d.npy" % j)
+                    np.save(pnpy, new.astype(fr.data.dtype))
+                    fr.load_npy(pnpy)
+                else:
+                    fr.data = new.astype(fr.data.dtype)
+                h.append("rebound")
+                ctx.hit("data_rebound_after_waterfall" if [x for x in h if x in ("wf", "saved", "copy", "loaded")] else "data_rebound")
             elif kind == "retime":
                 if op["via"] == "cadence":
                     lead = stg.Frame(fchans=fr.fchans, tchans=fr.tchans, df=fr.df, dt=fr.dt, fch1=fr.fch1, ascending=fr.ascending,
